@@ -126,17 +126,46 @@ func Generate(rng *rand.Rand, o Opts) *type1.Font {
 			nc = 40
 		}
 		for c := 0; c < nc; c++ {
-			g.MoveTo(coord(rng, o.Fractional), coord(rng, o.Fractional))
+			cx, cy := coord(rng, o.Fractional), coord(rng, o.Fractional)
+			g.MoveTo(cx, cy)
 			ns := 1 + rng.Intn(4)
 			if o.LongPaths && gi == 1 {
 				ns = 30
 			}
 			for s := 0; s < ns; s++ {
+				// Segment shapes: the writer chooses between hlineto / vlineto / rlineto and
+				// hvcurveto / vhcurveto / rrcurveto by coincidences between coordinates, so
+				// every combination of coincidences is generated often (see SegmentShapes).
 				if rng.Intn(2) == 0 {
-					g.LineTo(coord(rng, o.Fractional), coord(rng, o.Fractional))
+					x, y := coord(rng, o.Fractional), coord(rng, o.Fractional)
+					switch rng.Intn(6) {
+					case 0:
+						y = cy // horizontal
+					case 1:
+						x = cx // vertical
+					case 2:
+						x, y = cx, cy // zero length
+					}
+					g.LineTo(x, y)
+					cx, cy = x, y
 				} else {
-					g.CurveTo(coord(rng, o.Fractional), coord(rng, o.Fractional), coord(rng, o.Fractional),
-						coord(rng, o.Fractional), coord(rng, o.Fractional), coord(rng, o.Fractional))
+					x1, y1 := coord(rng, o.Fractional), coord(rng, o.Fractional)
+					x2, y2 := coord(rng, o.Fractional), coord(rng, o.Fractional)
+					x3, y3 := coord(rng, o.Fractional), coord(rng, o.Fractional)
+					if rng.Intn(3) == 0 {
+						y1 = cy // leaves horizontally
+					}
+					if rng.Intn(3) == 0 {
+						x1 = cx // leaves vertically
+					}
+					if rng.Intn(3) == 0 {
+						x3 = x2 // arrives vertically
+					}
+					if rng.Intn(3) == 0 {
+						y3 = y2 // arrives horizontally
+					}
+					g.CurveTo(x1, y1, x2, y2, x3, y3)
+					cx, cy = x3, y3
 				}
 			}
 			g.ClosePath()
@@ -212,27 +241,27 @@ type PCmd struct {
 
 // PGlyph is the projection of a glyph.
 type PGlyph struct {
-	Name string  `json:"name"`
-	Cmds []PCmd  `json:"cmds"`
-	H    []int   `json:"h"`
-	V    []int   `json:"v"`
-	Wx   int64   `json:"wx"` // unit 1e-4
-	Wy   int64   `json:"wy"`
-	I    bool    `json:"i"` // every coordinate of the glyph is integral
+	Name string `json:"name"`
+	Cmds []PCmd `json:"cmds"`
+	H    []int  `json:"h"`
+	V    []int  `json:"v"`
+	Wx   int64  `json:"wx"` // unit 1e-4
+	Wy   int64  `json:"wy"`
+	I    bool   `json:"i"` // every coordinate of the glyph is integral
 }
 
 // PFont is the projection of a font: what Equiv9 / Quant10 compare.
 type PFont struct {
-	Glyphs   []PGlyph `json:"glyphs"` // sorted by name
-	Enc      []string `json:"enc"`    // 256 entries or empty
-	Name     []int    `json:"name"`
-	Strings  [][]int  `json:"strings"` // version, notice, copyright, fullname, familyname, weight
-	Nums     []int64  `json:"nums"`    // italic, underline pos, thickness, matrix[6], bluescale, stdhw, stdvw (unit 1e-6)
-	Ints     []int    `json:"ints"`    // isFixedPitch, BlueShift, BlueFuzz, ForceBold
-	Blues    []int    `json:"blues"`
-	Other    []int    `json:"other"`
-	Date     []int    `json:"date"` // empty, or UTC year..second
-	Finite   bool     `json:"finite"`
+	Glyphs  []PGlyph `json:"glyphs"` // sorted by name
+	Enc     []string `json:"enc"`    // 256 entries or empty
+	Name    []int    `json:"name"`
+	Strings [][]int  `json:"strings"` // version, notice, copyright, fullname, familyname, weight
+	Nums    []int64  `json:"nums"`    // italic, underline pos, thickness, matrix[6], bluescale, stdhw, stdvw (unit 1e-6)
+	Ints    []int    `json:"ints"`    // isFixedPitch, BlueShift, BlueFuzz, ForceBold
+	Blues   []int    `json:"blues"`
+	Other   []int    `json:"other"`
+	Date    []int    `json:"date"` // empty, or UTC year..second
+	Finite  bool     `json:"finite"`
 }
 
 func fx(x float64, unit float64) int64 { return int64(math.Round(x * unit)) }
@@ -334,4 +363,52 @@ func Project(f *type1.Font) *PFont {
 		p.Date = []int{d.Year(), int(d.Month()), d.Day(), d.Hour(), d.Minute(), d.Second()}
 	}
 	return p
+}
+
+// SegmentShapes classifies every line and curve of the font by the coincidences
+// between its coordinates that the charstring writer's choice of command depends
+// on: lines "L:h", "L:v", "L:0", "L:r"; curves "C:" + four flags (1 = coincidence)
+// for y1=y0, x1=x0, x3=x2, y3=y2.  Used to show that a run exercised every class.
+func SegmentShapes(f *type1.Font, into map[string]int) {
+	bit := func(b bool) string {
+		if b {
+			return "1"
+		}
+		return "0"
+	}
+	for _, g := range f.Glyphs {
+		var cx, cy float64
+		for _, cmd := range g.Cmds {
+			switch cmd.Op {
+			case type1.OpMoveTo:
+				cx, cy = cmd.Args[0], cmd.Args[1]
+			case type1.OpLineTo:
+				x, y := cmd.Args[0], cmd.Args[1]
+				switch {
+				case x == cx && y == cy:
+					into["L:0"]++
+				case y == cy:
+					into["L:h"]++
+				case x == cx:
+					into["L:v"]++
+				default:
+					into["L:r"]++
+				}
+				cx, cy = x, y
+			case type1.OpCurveTo:
+				a := cmd.Args
+				into["C:"+bit(a[1] == cy)+bit(a[0] == cx)+bit(a[4] == a[2])+bit(a[5] == a[3])]++
+				cx, cy = a[4], a[5]
+			}
+		}
+	}
+}
+
+// AllShapes lists the classes of SegmentShapes.
+func AllShapes() []string {
+	out := []string{"L:0", "L:h", "L:v", "L:r"}
+	for i := 0; i < 16; i++ {
+		out = append(out, fmt.Sprintf("C:%04b", i))
+	}
+	return out
 }
